@@ -139,14 +139,17 @@ func (dr *DialogueRunner) Next(choice int) (*DialogueElement, error) {
 		for i, option := range nextStatement.ShortcutOptionStatement.Options {
 			markupResult, err := dr.textElementsToMarkup(option.LineStatement.Text.Elements)
 			if err != nil {
+				dr.lastStatement = nil // no option group gets presented, so there's no choice to wait for
 				return nil, fmt.Errorf("failed to prepare option %v: %w", i, err)
 			}
 			disabled := false
 			if option.LineStatement.Condition != nil {
 				enabled, err := evaluateExpression(option.LineStatement.Condition, dr.variableStorer, dr.functionStorer)
 				if err != nil {
+					dr.lastStatement = nil
 					return nil, fmt.Errorf("failed to evaluate line condition: %w", err)
 				} else if enabled.Boolean == nil {
+					dr.lastStatement = nil
 					return nil, fmt.Errorf("encountered non boolean line condition")
 				}
 				disabled = !*enabled.Boolean
